@@ -161,6 +161,11 @@ def eval_prop(pid, quick_modes, thorough_modes, quick_explore=0, thorough_explor
         thorough = tier == "thorough"
         modes = thorough_modes if thorough else quick_modes
         eval_stage(run, pid, modes, explore=thorough_explore if thorough else quick_explore, explore_mode=explore_mode)
+        if pid in ("C01", "C16"):
+            # the host-data half: what conv hands to the evaluator is well formed and of the type it reports
+            # (C01: no component of another type than its container declares; C16: absent parts are Nothing of the right type)
+            conv_stage(run, pid, rel=lambda why: {w for w in why if w.split("_")[0] in
+                                                  ("wellformed", "valtype", "convok", "faithful", "type", "typeok", "panic")})
         run.bounds = dict(universes=[dict(root=m[0], mode=m[2], size=m[3]) for m in modes],
                           explore=thorough_explore if thorough else quick_explore)
         return finish(run, "model_checking", EVAL_RULE, assumptions=EVAL_ASSUME)
